@@ -58,8 +58,9 @@ type Response struct {
 	Delay               time.Duration // wait before answering (aborted when the client goes away)
 	PartialMsg          string        // success with partial-success message
 	PartialN            int64
-	HoldUntilClientGone bool // never answer: hold until the client hangs up; then record when
-	Chunked             bool // HTTP: flush the header first so that the body is sent chunked (no Content-Length)
+	HoldUntilClientGone bool          // never answer: hold until the client hangs up; then record when
+	Chunked             bool          // HTTP: flush the header first so that the body is sent chunked (no Content-Length)
+	HoldMax             time.Duration // with HoldUntilClientGone: stop holding after this long (0 = forever)
 }
 
 type Script func(r *Request) Response
@@ -151,11 +152,19 @@ func (s *Server) handleGRPC(ctx context.Context, signal string, msg proto.Messag
 		resp = s.script(r)
 	}
 	if resp.HoldUntilClientGone {
-		<-ctx.Done()
-		s.mu.Lock()
-		s.GoneAt = append(s.GoneAt, time.Now())
-		s.mu.Unlock()
-		return resp, status.FromContextError(ctx.Err()).Err()
+		var capC <-chan time.Time
+		if resp.HoldMax > 0 {
+			capC = time.After(resp.HoldMax)
+		}
+		select {
+		case <-ctx.Done():
+			s.mu.Lock()
+			s.GoneAt = append(s.GoneAt, time.Now())
+			s.mu.Unlock()
+			return resp, status.FromContextError(ctx.Err()).Err()
+		case <-capC:
+			return resp, nil
+		}
 	}
 	if resp.Delay > 0 {
 		select {
@@ -274,11 +283,20 @@ func (s *Server) serveHTTP(w http.ResponseWriter, req *http.Request) {
 		resp = s.script(r)
 	}
 	if resp.HoldUntilClientGone {
-		<-req.Context().Done()
-		s.mu.Lock()
-		s.GoneAt = append(s.GoneAt, time.Now())
-		s.mu.Unlock()
-		return
+		var capC <-chan time.Time
+		if resp.HoldMax > 0 {
+			capC = time.After(resp.HoldMax)
+		}
+		select {
+		case <-req.Context().Done():
+			s.mu.Lock()
+			s.GoneAt = append(s.GoneAt, time.Now())
+			s.mu.Unlock()
+			return
+		case <-capC:
+			w.WriteHeader(200)
+			return
+		}
 	}
 	if resp.Delay > 0 {
 		select {
